@@ -151,8 +151,9 @@ def tables_for(inst: T.LevelInst, d: str):
     if k == "absdiff":
         return ["num", "int"]
     if k == "pctdiff":
-        # INTEGER columns on SQLite: known integer-division finding, exercised by a dedicated witness
-        return ["num"] if d == "sqlite" else ["num", "int"]
+        # INTEGER columns too, on every backend (integer division on SQLite was fixed by splink 89a1dbc7; a regression shows
+        # up here with features integer_columns and in the dedicated witness of c16.pctdiff_sqlite_integer_witness)
+        return ["num", "int"]
     if k == "timediff":
         m = inst.meta
         if not m["is_string"]:
